@@ -31,7 +31,7 @@ impl Monitor for C12 {
         if tier == Tier::Sanitizer {
             vec!["uplinks_checked"]
         } else {
-            vec!["uplinks_checked", "adrackreq_expected", "backoff_step_expected", "ack_expected", "accepted_downlink", "rejected_downlink", "adr_toggle", "at_lowest_rate_with_n_ge_64", "classc_downlink", "two_classc_downlinks", "mask_limited_uplinks", "adr_set_again", "classc_then_classa_downlink"]
+            vec!["uplinks_checked", "adrackreq_expected", "backoff_step_expected", "ack_expected", "accepted_downlink", "rejected_downlink", "adr_toggle", "at_lowest_rate_with_n_ge_64", "classc_downlink", "two_classc_downlinks", "mask_limited_uplinks", "adr_set_again", "classc_then_classa_downlink", "radio_faults", "port0_empty_uplinks"]
         }
     }
 
@@ -276,7 +276,24 @@ fn history(front: Front, reg: Reg, rng: &mut Prng, col: &mut Collector) {
             }
         }
         let ev0 = dev.ev_len();
-        let resp = dev.transact(Action::Send { data: &[step as u8], port: 3, confirmed }, &script);
+        // now and then the radio fails during an uplink nobody answers (at the transmission itself, or
+        // while a window is set up or listened in); the application carries on with its next send
+        if plan == "none" && rng.chance(1, 40) {
+            let base = dev.log.borrow().radio_calls;
+            dev.log.borrow_mut().fault_at = Some(base + rng.below(4) as usize);
+        }
+        // one uplink in eight is a MAC-only one: FPort 0 without payload
+        let (data, port): (Vec<u8>, u8) = if rng.chance(1, 8) { (vec![], 0) } else { (vec![step as u8], 3) };
+        if port == 0 {
+            col.event("port0_empty_uplinks");
+        }
+        let resp = dev.transact(Action::Send { data: &data, port, confirmed }, &script);
+        dev.log.borrow_mut().fault_at = None;
+        let fault: Option<&'static str> = dev.evs_since(ev0).iter().find_map(|e| if let Ev::Fault(k) = e { Some(*k) } else { None });
+        if let Some(k) = fault {
+            col.event("radio_faults");
+            recent.push(format!("radio fault at {}", k));
+        }
         if let Resp::Panic(m, l) = &resp {
             col.violation(&format!("C12|panic|{}|{}", reg.name(), short_loc(l)), "device panicked during an ADR history", json!({"msg": m, "loc": l, "recent": recent}));
             return;
@@ -366,6 +383,9 @@ fn history(front: Front, reg: Reg, rng: &mut Prng, col: &mut Collector) {
                 col.event("rejected_downlink");
             }
             let mut stepped = false;
+            // an uplink whose transmission itself failed may or may not count as 'passed'; one that
+            // went out and lost its windows to a radio error has passed without a downlink
+            let uncounted: Vec<(u32, u8)> = if matches!(fault, Some("tx")) || matches!(fault, Some("phy")) { models.clone() } else { vec![] };
             for m in models.iter_mut() {
                 m.0 = m.0.saturating_add(1);
                 if adr && !suspended && m.0 >= 96 && (m.0 - 64) % 32 == 0 {
@@ -377,6 +397,11 @@ fn history(front: Front, reg: Reg, rng: &mut Prng, col: &mut Collector) {
             }
             if stepped {
                 col.event("backoff_step_expected");
+            }
+            for m in uncounted {
+                if !models.contains(&m) {
+                    models.push(m);
+                }
             }
         }
         if suspended {
